@@ -93,7 +93,8 @@ class C06(Property):
                        "probe.outcome-ok-after-fault",
                        "probe.extended-vocabulary",
                        "probe.cut-inside-multibyte-character",
-                       "probe.long-flat-collection"]
+                       "probe.long-flat-collection",
+                       "probe.odd-character-at-end-of-text"]
 
     def check(self, out, case, nontrivial=False):
         config = case["config"]
@@ -257,6 +258,14 @@ class C06(Property):
                 do({"config": config, "text": text[:k],
                     "bytes_hex": data[:k].hex(), "faulted": True}, k > 10)
         if "chars" in kinds:
+            # the very last character of the text is one that some grammar
+            # does not allow (an error raised with nothing after it)
+            for a in rng.sample(["\0", "\x01", "\x7f", "\x85", "\u00e9",
+                                 "\u20ac", "\U0001d11e", "\ud800"], 3):
+                out.inc("fault.char-ins")
+                out.inc("probe.odd-character-at-end-of-text")
+                do({"config": config, "text": text.rstrip() + a,
+                    "faulted": True})
             for _ in range(rng.randint(10, 40)):
                 t = text
                 for _ in range(rng.choice([1, 1, 2, 3])):
